@@ -274,6 +274,13 @@ List(h) ==
     /\ last' = Rec("list", h, <<>>, Listed(h), "")
     /\ UNCHANGED <<loose, pack, pex, idx, cur, map, repacked>>
 
+(* a listing that the caller abandons after its first item (break in a for loop): the session was reloaded and the
+   first SELECT has run, nothing else stays behind *)
+ListPart(h) ==
+    /\ IF ListUsesPinnedSnapshot THEN SelPin(h) ELSE Refresh(h, idx)
+    /\ last' = Rec("listpart", h, <<>>, Listed(h), "")
+    /\ UNCHANGED <<loose, pack, pex, idx, cur, map, repacked>>
+
 (* loosen_object (container.py:1887-1925) *)
 Loosen(h, k) ==
     /\ IF Present(k) THEN /\ UNCHANGED <<loose, pinned, snap>>
@@ -337,6 +344,7 @@ NextWith(Batches, DelSets, HasSets, ImpSets, Src, PackModes, RepackModes) ==
         \/ \E mode \in RepackModes : Repack(h, mode)
         \/ \E S \in HasSets : Has(h, S)
         \/ List(h)
+        \/ ListPart(h)
         \/ \E k \in Keys : Loosen(h, k)
         \/ \E S \in ImpSets, z \in BOOLEAN, sh \in BOOLEAN :
               \E order \in SetToSeqs(IF sh THEN (S \cap Src) \ (LoosePresent \cup KeysOf(V(h))) ELSE S \cap Src) :
@@ -388,5 +396,5 @@ Act_DeleteExact ==
 Act_RepackCompact == [][ IsOp("repack") => RepackCompact(ObsOf') ]_vars
 
 Act_MaintenanceKeepsMap ==
-    [][ (last'.op \in {"pack", "clean", "repack", "loosen", "reopen", "has", "list", "initagain"}) => map' = map ]_vars
+    [][ (last'.op \in {"pack", "clean", "repack", "loosen", "reopen", "has", "list", "listpart", "initagain"}) => map' = map ]_vars
 =============================================================================
